@@ -12,6 +12,7 @@ INVARIANT NothingInvented
 INVARIANT ReceiverNeverFails
 INVARIANT QueueOnlyWhileTriggered
 INVARIANT AllDeliveredWhenQuiet
+INVARIANT NothingAfterClose
 INVARIANT RefusedNeverOnWire
 INVARIANT OverLimitRefused
 CHECK_DEADLOCK FALSE
